@@ -220,6 +220,36 @@ def scalar_laws(R: Recorder) -> None:
                 object.__setattr__(M, "__class__", MissingT)  # put the process-wide singleton back before going on
             intact = intact and (not M) and MissingT() is M and M == M and repr(M) == "MISSING"
             R.monitor("attributes", rejected and intact, where={"kind": kind + "-dunder", "name": name, "accepted": not rejected}, detail=f"{kind}attr(MISSING, {name!r}{', ' + repr(value) if kind == 'set' else ''}): rejected={rejected}, MISSING intact afterwards={intact}", case=case)
+    # no instance namespace to write into: vars() / __dict__ / __weakref__ are rejected, nothing sticks
+    for route in ("vars", "__dict__", "__weakref__", "object.__setattr__", "object.__getattribute__-dict"):
+        case = {"op": "namespace", "route": route}
+        try:
+            if route == "vars":
+                vars(M)["payload"] = 42
+            elif route == "__dict__":
+                M.__dict__["payload"] = 42
+            elif route == "__weakref__":
+                getattr(M, "__weakref__")
+            elif route == "object.__setattr__":
+                object.__setattr__(M, "payload", 42)
+            else:
+                object.__getattribute__(M, "__dict__")["payload"] = 42
+            rejected = False
+        except (AttributeError, TypeError):
+            rejected = True
+        except BaseException:  # noqa: BLE001
+            rejected = False
+        try:
+            stuck = getattr(M, "payload")
+            clean = False
+        except AttributeError:
+            stuck, clean = None, True
+        if not clean:
+            try:
+                object.__getattribute__(M, "__dict__").pop("payload", None)
+            except BaseException:  # noqa: BLE001
+                pass
+        R.monitor("attributes", rejected and clean, where={"kind": "namespace-route", "route": route, "accepted": not rejected}, detail=f"{route}: rejected={rejected}; MISSING.payload afterwards: {'absent' if clean else repr(stuck)}", case=case)
     # state dict view skips missing
     h = g["Holder"]()
     R.monitor("identity", h.value is M and "value" not in h.as_dict(), where={"op": "state-default", "kind": "changed", "top": "state"}, detail=f"Holder() -> value {h.value!r}, as_dict {h.as_dict()!r}", case={"op": "state-default"})
